@@ -210,7 +210,7 @@ Proof.
   unfold view_options_enter, view_options_exit. intros a s s1 sv H. inversion H; subst; clear H.
   match goal with |- context [tl_peek ?k _ s] => destruct (tl_peek_dict k s []) as [d Hd] end.
   unfold v_empty_dict. rewrite Hd.
-  unfold py_merge2. destruct (py_update_dict d a) as [d' Hd']. rewrite Hd'.
+  destruct (py_merge2_dict d a) as [d' Hd']. rewrite Hd'.
   apply tl_pop_push. reflexivity.
 Qed.
 
@@ -222,10 +222,11 @@ Lemma contextual_loop_step : forall (p : dict) (k : Z) (v : atom),
    else py_setitem (VD p) (VA (AInt k)) (VA v))
   = VD (dict_set k (match dict_get k p with Some old => if cascade_of old then old else v | None => v end) p).
 Proof.
-  intros. cbv zeta. unfold py_dict_get. destruct (dict_get k p) as [[| b | z | z c t]|]; simpl; try reflexivity.
+  intros. cbv zeta. unfold py_dict_get. destruct (dict_get k p) as [[| b | z | z c t | dd]|]; simpl; try reflexivity.
   - destruct b; reflexivity.
   - destruct (negb (z =? 0)%Z); reflexivity.
   - destruct c; reflexivity.
+  - destruct dd; reflexivity.
 Qed.
 
 Lemma contextual_scope_enter_dict : forall vs l p, tl_get k_contextual v_empty_dict l = VD p ->
@@ -291,7 +292,7 @@ Proof.
   assert (Fstep : forall acc s d, F (VD acc) (s, d) = VD (acc ++ match detour_resolve c (s, d) with Some y => [y] | None => [] end)).
   { intros acc s d. unfold F. cbn [fst snd]. unfold py_contains, py_dict_get, py_append_pair, detour_resolve, dict_has. cbn [fst snd].
     destruct (dict_get s c); cbn [negb]; [rewrite app_nil_r; reflexivity|].
-    destruct d as [| b | z | z cc tt]; try reflexivity.
+    destruct d as [| b | z | z cc tt | dd]; try reflexivity.
     destruct (dict_get z c); reflexivity. }
   assert (F1 : forall ms acc, fold_left F ms (VD acc) = VD (acc ++ filter_map (detour_resolve c) ms)).
   { intro ms0. induction ms0 as [|[s d] r IH]; intros acc; cbn [fold_left filter_map].
